@@ -64,6 +64,7 @@ def key(s):
         s.endPosition.query.position
 
 
+@core.guarded(lambda rpos, qpos, maxd, rev, pk, *a: dict(reference=rpos, query=qpos, maxDistance=maxd, reverse=rev, peaks=pk))
 def check_case(rpos, qpos, maxd, rev, pk, acc, aligner=None):
     al = aligner or make_aligner(maxd, 100, 1, -25, 100, 120)
     ref = OpticalMap(1, rpos[-1] + 20, rpos)
